@@ -44,10 +44,10 @@ Definition scc_case_ok (rest : list Z) : Prop :=
     length outsN = length compsN /\
     (if Z.testbit flags 1 then scc_edges_spec g compsN outsN else Forall (fun l => l = []) outsN).
 
-Theorem check_scc_sound : forall l c tag pos diag r,
-  check_scc l = Some (verdict c tag pos diag, r) -> c = 0 \/ c = 1 -> c = 0 /\ r = [] /\ scc_case_ok l.
+Theorem check_scc_sound : forall l c v r,
+  check_scc l = Some (c :: v, r) -> c = 0 \/ c = 1 -> c = 0 /\ r = [] /\ scc_case_ok l.
 Proof.
-  intros l c tag pos diag r H Hc. unfold check_scc in H. pinv H. subst.
+  intros l c vv r H Hc. unfold check_scc in H. pinv H. subst.
   destruct (g_wfb a) eqn:Ewf; cbn [negb] in Ev; [|rejected Ev]. apply g_wfb_spec in Ewf.
   cbv zeta in Ev. apply ok_or_mismatch in Ev; [|exact Hc]. destruct Ev as [W ->]. ff_split W.
   split; [reflexivity|]. split; [reflexivity|].
